@@ -282,8 +282,11 @@ impl ProgressBar {
 
     /// Update the `ProgressBar`'s inner [`ProgressState`]
     pub fn update(&self, f: impl FnOnce(&mut ProgressState)) {
-        self.state()
-            .update(Instant::now(), f, self.ticker.lock().unwrap().is_none());
+        // Look at the ticker before locking the state, in the same order as everywhere else:
+        // `disable_steady_tick()` joins the ticker thread, which needs the state, while it
+        // holds the ticker slot.
+        let tick = self.ticker.lock().unwrap().is_none();
+        self.state().update(Instant::now(), f, tick);
     }
 
     /// Sets the position of the progress bar
